@@ -18,6 +18,42 @@ CHECKS = {
          "classification is exact because all pool constraints are totally unimodular (grid search in TLC). Statuses of rank-deficient "
          "problems and of infeasible problems with a constants-only row are left unspecified (rounding dependent).",
     technique="TLA+ state machine, TLC exhaustive graph -> per-transition replay into cvxopt.modeling.op + TLC trace validation of recorded histories"),
+ "C01": dict(
+    category="model_checking",
+    text="SolverContract.tla states which certificate must accompany status 'optimal' (residual, cone, gap, field and block clauses, "
+         "iteration budget, and that the status follows from the stopping predicates of the last iteration); ConeLP.tla refines it and is "
+         "model-checked. Planted cone LPs whose truth TLC verifies exactly (Planted.tla) are run through conelp/lp/socp/sdp over the "
+         "configuration product (kktsolver x storage x start points x options x back-end); every call is recorded as a trace (KKT calls, "
+         "iteration predicates from the guarded hook, result) and TLC evaluates the contract on every trace.",
+    design_ref="DESIGN.md section 4 C01, 4.0",
+    note="The truth of each numeric clause (residual <= feastol, cone membership, gap, field = recomputed value) is decided by the abstraction "
+         "function harness/alpha.py in exact rational arithmetic from the caller's data, not by TLC; TLC decides which clauses are required when.",
+    technique="TLA+ contract + faithful model (TLC); TLC-verified planted instances; TLC trace validation of recorded solver calls with exact-rational certificate abstraction"),
+ "C02": dict(
+    category="model_checking",
+    text="Same machinery as C01 with the contract invariants PinfCert/DinfCert: an infeasibility status must come with the Farkas certificate "
+         "clauses (other half None, cone membership, normalisation -1, residual <= feastol, reported residual/slack = recomputed) and must "
+         "follow from the stopping predicates; exercised on planted infeasible, unbounded and solvable instances through conelp/lp/socp/sdp.",
+    design_ref="DESIGN.md section 4 C02",
+    note="Numeric clauses decided by harness/alpha.py. With solver='glpk' the documentation says no certificate is returned (all None): checked as such.",
+    technique="TLA+ contract (TLC) + TLC trace validation with exact-rational certificate abstraction"),
+ "C03": dict(
+    category="model_checking",
+    text="Contract invariants OptimalCert/OptimalDecision/IterBudget on traces of coneqp and qp over planted QPs (P = R'R of any rank, truth "
+         "verified by TLC) x kktsolver x storage x initvals subset x options x junk above the diagonal of P; ConeQP.tla (incl. the cdim = 0 "
+         "direct solve) refines the contract and is model-checked.",
+    design_ref="DESIGN.md section 4 C03",
+    note="Numeric clauses decided by harness/alpha.py with the documented QP formulas; P is read from its lower triangle only by the oracle.",
+    technique="TLA+ contract + faithful model (TLC); TLC trace validation with exact-rational certificate abstraction"),
+ "C05": dict(
+    category="model_checking",
+    text="Planted.tla makes TLC the judge of truth: every instance used is verified in exact integer arithmetic to be strictly primal/dual "
+         "feasible, or to have a strict Farkas certificate, or a strictly improving ray (rank conditions by minors). Each goes through every "
+         "native entry point that fits with default settings; the classification invariants of SolverContract are evaluated by TLC on every "
+         "trace and the objectives of all paths on one instance are compared.",
+    design_ref="DESIGN.md section 4 C05",
+    note="Convergence is observed, not derived. Corrupted plants are shown to be rejected by TLC on every run (anti-vacuity).",
+    technique="TLC-verified planted instances + TLC trace validation against the classification contract"),
  "C10": dict(
     category="fault_enumeration",
     text="SolverContract.tla states the containment contract (a pending KKT failure ends in the documented ValueError during start-up, "
